@@ -164,7 +164,7 @@ func Raw(sign int8, coef uint64, exp int) Dnum {
 // New constructs a Dnum, maximizing coef and handling exp out of range
 // Used to normalize results of operations
 func New(sign int8, coef uint64, exp int) Dnum {
-	if sign == 0 || coef == 0 || exp < expMin {
+	if sign == 0 || coef == 0 {
 		return Zero
 	} else if sign == signPosInf {
 		return PosInf
@@ -181,6 +181,10 @@ func New(sign int8, coef uint64, exp int) Dnum {
 			p := maxShift(coef)
 			coef *= pow10[p]
 			exp -= p
+		}
+		// check the exponent after normalizing, which adjusts it
+		if exp < expMin {
+			return Zero
 		}
 		if exp > expMax {
 			return Inf(sign)
@@ -252,7 +256,7 @@ func (dn Dnum) String() string {
 		if nd > 1 {
 			after = "." + digits[1:]
 		}
-		return sign + digits[:1] + after + "e" + strconv.Itoa(int(dn.exp-1))
+		return sign + digits[:1] + after + "e" + strconv.Itoa(int(dn.exp)-1)
 	}
 }
 
